@@ -383,12 +383,24 @@ func cellStepOf(p CPath, cell Cell) (cellStep, bool) {
 // call) and the function stores at most one constant into the cell, before that point;
 // none means the zero value.
 func cellInitial(cell Cell, parent *ssa.Function, before ssa.Instruction) (int64, bool) {
-	if cell.Obj == nil || cell.Obj.Parent() != parent {
+	if cell.Obj == nil {
+		return 0, false
+	}
+	// allocated by the starting function, or by a helper it calls on the way (a factory that
+	// returns the operation's counter): in either case once per call of the starting function
+	owner := cell.Obj.Parent()
+	inView := false
+	for _, f := range flatOf(parent).Funcs() {
+		if f == owner {
+			inView = true
+		}
+	}
+	if !inView || !mustPrecede(parent, cell.Obj, before) {
 		return 0, false
 	}
 	val, n := int64(0), 0
 	okAll := true
-	rawInstrs(parent, false, func(in ssa.Instruction) {
+	rawInstrs(owner, false, func(in ssa.Instruction) {
 		st, isSt := in.(*ssa.Store)
 		if !isSt || !cell.addrIn(st.Addr) {
 			return
@@ -408,7 +420,7 @@ func cellInitial(cell Cell, parent *ssa.Function, before ssa.Instruction) (int64
 func scalarCellsOf(op *ssa.Function) []Cell {
 	seen := map[Cell]bool{}
 	var out []Cell
-	rawInstrs(op, false, func(in ssa.Instruction) {
+	viewInstrs(op, func(in ssa.Instruction) {
 		v, ok := in.(ssa.Value)
 		if !ok {
 			return
